@@ -32,7 +32,7 @@ ASSUMPTIONS = [
     "with -n the lots must still cover the disposals (otherwise the run fails: C02), so -n mutants overdraw one account while another holds the coins",
 ]
 SETTINGS: Dict[str, Dict[str, Any]] = {
-    "quick": {"cases": 2000, "cli_cases": 48, "budget_s": 45, "minimums": {"corpus_runs": 100, "accounts_checked": 8000, "nontrivial": 800, "negative_runs": 100, "cli_runs": 5}},
+    "quick": {"cases": 2000, "cli_cases": 48, "budget_s": 45, "minimums": {"corpus_runs": 100, "to_date_runs_with_negative_balances_allowed": 500, "accounts_checked": 8000, "nontrivial": 800, "negative_runs": 100, "cli_runs": 5}},
     "thorough": {"cases": 80000, "cli_cases": 150, "budget_s": 300, "minimums": {"corpus_runs": 100, "accounts_checked": 300000, "nontrivial": 30000, "negative_runs": 4000, "cli_runs": 100}},
 }
 PROFILES = [
@@ -56,15 +56,16 @@ def misplaced_debit(hist: Dict[str, Any], rng: Any) -> Optional[Dict[str, Any]]:
     return h
 
 
-def _observe(ctx: Any, ip: Any, hist: Dict[str, Any], sched: Dict[int, str], to_s: Optional[str], allow_negative: bool) -> None:
+def _observe(ctx: Any, ip: Any, hist: Dict[str, Any], sched: Dict[int, str], to_s: Optional[str], allow_negative: bool, from_s: Optional[str] = None) -> None:
     from rpv.drive_inproc import balances_of, trace_of
 
     model = Model(hist)
     to_d = date.fromisoformat(to_s) if to_s else None
-    res = ip.run(hist, sched, to_date=to_d, allow_negative=allow_negative)
+    from_d = date.fromisoformat(from_s) if from_s else None
+    res = ip.run(hist, sched, from_date=from_d, to_date=to_d, allow_negative=allow_negative)
     ctx.count("executions")
     ctx.count("valid_cases")
-    case = {"hist": hist, "schedule": sched_json(sched), "to": to_s, "allow_negative": allow_negative}
+    case = {"hist": hist, "schedule": sched_json(sched), "to": to_s, "from": from_s, "allow_negative": allow_negative}
     if not res.ok:
         ctx.count("unobservable")
         ctx.tag("tag_unobservable", res.error[:80])
@@ -82,10 +83,13 @@ def _observe(ctx: Any, ip: Any, hist: Dict[str, Any], sched: Dict[int, str], to_
     lots_total = sum((lot.amount for lot in model.lots.values() if to_d is None or lot.ts.date() <= to_d), Fraction(0))
     unconsumed = lots_total - sum(consumed.values(), Fraction(0))
     finals = sum((b[5] for b in observed), Fraction(0))
-    if finals != unconsumed:
+    # (with a from-date the run's own trace hides the earlier fractions: the equations above still apply, this clause needs all fractions)
+    if from_d is None and finals != unconsumed:
         violations.append({"rule": "balance.reconciliation-with-lots", "detail": {"sum_final_balances": str(finals), "unconsumed_in_lots": str(unconsumed)}})
     ctx.count("reconciliations")
-    ctx.tag("tag_shape", f"to={'y' if to_d else 'n'},n={'y' if allow_negative else 'n'}")
+    ctx.tag("tag_shape", f"from={'y' if from_d else 'n'},to={'y' if to_d else 'n'},n={'y' if allow_negative else 'n'}")
+    if to_d and allow_negative:
+        ctx.count("to_date_runs_with_negative_balances_allowed")
     if len(observed) >= 3 and any(r["t"] == "INTRA" for r in hist["rows"]):
         ctx.distinct("nontrivial", case)
         ctx.sample({"n_rows": len(hist["rows"]), "to": to_s, "balances": [[b[0], b[1]] + [float(x) for x in b[2:]] for b in observed]})
@@ -108,11 +112,19 @@ def run_shard(ctx: Any) -> None:
         if is_valid(Model(hist)):
             sched = {1970: rng.choice(METHODS)}
             _observe(ctx, ip, hist, sched, None, rng.random() < 0.2)
-            for d in [d for d in candidate_days(rng, hist, 4) if clean_cut(hist, d)][:2]:
-                _observe(ctx, ip, hist, sched, d.isoformat(), False)
+            days = candidate_days(rng, hist, 4)
+            clean = [d for d in days if clean_cut(hist, d)]
+            # for a valid history -n changes nothing, and a from-date never changes balances
+            for k, d in enumerate(clean[:2]):
+                _observe(ctx, ip, hist, sched, d.isoformat(), k == 1 or rng.random() < 0.3, from_s=rng.choice([x for x in days if x <= d] or [d]).isoformat() if rng.random() < 0.3 else None)
+            if days and rng.random() < 0.5:
+                _observe(ctx, ip, hist, sched, None, rng.random() < 0.3, from_s=rng.choice(days).isoformat())
             mutant = misplaced_debit(hist, rng)
             if mutant is not None and Model(mutant).overspend_instant() is None:
                 _observe(ctx, ip, mutant, sched, None, True)
+                mdays = [d for d in candidate_days(rng, mutant, 3) if clean_cut(mutant, d)]
+                if mdays:
+                    _observe(ctx, ip, mutant, sched, mdays[0].isoformat(), True)
         else:
             ctx.count("generated_invalid")
         index += ctx.nshards
@@ -136,7 +148,7 @@ def replay(ctx: Any, case: Dict[str, Any]) -> None:
 
         cli_slices.c07_replay(ctx, case)
         return
-    _observe(ctx, get_ip(ctx), case["hist"], sched_from_json(case["schedule"]), case["to"], case["allow_negative"])
+    _observe(ctx, get_ip(ctx), case["hist"], sched_from_json(case["schedule"]), case["to"], case["allow_negative"], from_s=case.get("from"))
 
 
 def coverage(merged: Dict[str, Any], tier: str) -> Dict[str, Any]:
